@@ -150,11 +150,15 @@ def _pool():
         "gD": lambda sh: rtf.RTFDocument(df=DF2(), rtf_footnote=sh["fn2"], rtf_source=rtf.RTFSource(text="Z0", as_table=True)),
         "mOk": lambda sh: rtf.RTFDocument(df=[DFG(), DF3R()], rtf_body=[rtf.RTFBody(group_by=["k"]), sh["lastbody"]], rtf_footnote=sh["fn2"]),
         "mT": lambda sh: rtf.RTFDocument(df=DF5(), rtf_body=sh["lastbody"]),
+        # a multi-section document whose later section paginates by subline_by, with title and page header
+        # (what one section's encode writes into a component is read by the section loop of the next encode)
+        "mSub": lambda sh: rtf.RTFDocument(df=[DF2(), DFG()], rtf_body=[rtf.RTFBody(), rtf.RTFBody(subline_by=["k"])],
+                                           rtf_title=rtf.RTFTitle(text="T0"), rtf_page_header=rtf.RTFPageHeader()),
     }
 
 
 POOL_NAMES = ["plain", "red", "paged", "fnall", "grouped", "bad", "late", "multi", "multiw", "narrow", "wide", "figure", "shA", "shB", "shC"]
-POOL2_NAMES = ["gA", "gB", "gC", "gD", "mBad", "mBadF", "mOk", "mT"]
+POOL2_NAMES = ["gA", "gB", "gC", "gD", "mBad", "mBadF", "mOk", "mT", "mSub"]
 ALL_NAMES = POOL_NAMES + POOL2_NAMES
 SHARES = {"shA": ("body", "header", "page", "sub", "fn", "df"), "shB": ("body", "header", "page", "sub", "fn", "df"),
           "shC": ("body", "header", "page"),
